@@ -138,6 +138,67 @@ func ruleGuardedIndexing(c *Ctx, rule string) {
 					boundLeaves(bound, map[ssa.Value]bool{}, &leaves)
 					scoped := false
 					for _, leaf := range leaves {
+						// (2b) bounds of a capture group in a submatch location slice: -1 when the group did not participate
+						if u, ok := leaf.(*ssa.UnOp); ok && u.Op == token.MUL {
+							if ia, ok := u.X.(*ssa.IndexAddr); ok {
+								if lc, ok := ia.X.(*ssa.Call); ok && strings.Contains(an.CalleeName(&lc.Call), "SubmatchIndex") {
+									if k, isC := ia.Index.(*ssa.Const); isC && k.Value != nil && k.Int64() >= 2 {
+										scoped = true
+										idx := k.Int64()
+										path := (&an.Query{
+											Target: func(t ssa.Instruction) bool { return t == in },
+											BlockEdge: func(b *ssa.BasicBlock, succ int) bool {
+												cond, onTrue := an.EdgeCond(b, succ)
+												if cond == nil {
+													return false
+												}
+												v, neg := stripNot(cond)
+												bo, ok := v.(*ssa.BinOp)
+												if !ok {
+													return false
+												}
+												holds := onTrue != neg
+												lu, ok := bo.X.(*ssa.UnOp)
+												if !ok {
+													return false
+												}
+												lia, ok := lu.X.(*ssa.IndexAddr)
+												if !ok || lia.X != ia.X {
+													return false
+												}
+												lk, ok := lia.Index.(*ssa.Const)
+												if !ok || lk.Value == nil || lk.Int64()/2 != idx/2 {
+													return false
+												}
+												kc, ok := bo.Y.(*ssa.Const)
+												if !ok || kc.Value == nil {
+													return false
+												}
+												n := kc.Int64()
+												switch bo.Op {
+												case token.GEQ:
+													return holds && n >= 0
+												case token.GTR:
+													return holds && n >= -1
+												case token.LSS:
+													return !holds && n >= 0
+												case token.NEQ:
+													return holds && n == -1
+												case token.EQL:
+													return !holds && n == -1
+												}
+												return false
+											},
+										}).Search(an.After(lc))
+										o := c.R.Add(rule, fk, fmt.Sprintf("slice:%s/%s-from:submatch-group[%d]/requires:participated", an.AP(x.X), bname, idx), c.pos(in), path == nil, ifelse(path == nil, "the capture group's bound is used only after its >= 0 test", "a capture-group bound of FindStringSubmatchIndex is used as a slice bound without testing that the group took part in the match: it is -1 otherwise (for example when the user's rule closes the wrapping group early, `{id:a)|(b}`), and the request panics with slice bounds out of range"))
+										if path != nil {
+											o.Path = c.P.PathString(path)
+										}
+										continue
+									}
+								}
+							}
+						}
 						call, ok := leaf.(*ssa.Call)
 						if !ok || !indexFuncs[an.CalleeName(&call.Call)] {
 							continue
